@@ -1112,6 +1112,10 @@ where
         {
             let sc = self.size_ctl.load(Ordering::SeqCst);
             if sc >= 0
+                // `size_ctl` is read after the checks in the loop condition, so it may already
+                // belong to a later resize than the one `table` is part of. only join if it
+                // still carries the stamp of `table`'s length.
+                || (sc >> RESIZE_STAMP_SHIFT) != (rs >> RESIZE_STAMP_SHIFT)
                 || sc == rs + MAX_RESIZERS
                 || sc == rs + 1
                 || self.transfer_index.load(Ordering::SeqCst) <= 0
